@@ -1,6 +1,7 @@
 package vc
 
 import (
+	"go/token"
 	"fmt"
 	"go/ast"
 	"go/types"
@@ -527,6 +528,34 @@ func (c *fctx) loopEnv(fr *frame, li *loopInfo, st *state, phiOverride map[ssa.V
 				v = o
 			}
 			e.vars["k"] = sval{t: fmt.Sprintf("(+ %s 1)", v.t), sort: "Int", gt: types.Typ[types.Int]}
+			// ranged: the slice / string a `for ... range X` loop iterates over (X need not have a name)
+			for _, ref := range *phi.Referrers() {
+				bin, ok := ref.(*ssa.BinOp)
+				if !ok || bin.Op != token.ADD {
+					continue
+				}
+				for _, r2 := range *bin.Referrers() {
+					var x ssa.Value
+					switch ia := r2.(type) {
+					case *ssa.IndexAddr:
+						if ia.Index == ssa.Value(bin) {
+							x = ia.X
+						}
+					case *ssa.Index:
+						if ia.Index == ssa.Value(bin) {
+							x = ia.X
+						}
+					}
+					if x != nil {
+						if xv, ok := fr.vals[x]; ok && xv.t != "" {
+							e.vars["ranged"] = sval{t: xv.t, sort: c.S.SortOf(x.Type()), gt: x.Type()}
+						} else if _, isP := x.(*ssa.Parameter); isP {
+							xv := c.operand(fr, x)
+							e.vars["ranged"] = sval{t: xv.t, sort: c.S.SortOf(x.Type()), gt: x.Type()}
+						}
+					}
+				}
+			}
 		}
 	}
 	for k, v := range li.extra {
